@@ -24,6 +24,7 @@ Implementation: Token-based normalization with rolling window algorithm, languag
 # Pre-compiled import token set for O(1) membership test
 _IMPORT_TOKENS: frozenset[str] = frozenset(("{", "}", "} from"))
 _IMPORT_PREFIXES: tuple[str, ...] = ("import ", "from ", "export ")
+_STRING_QUOTES: frozenset[str] = frozenset(("'", '"', "`"))
 
 
 def tokenize(code: str) -> list[str]:
@@ -53,16 +54,17 @@ def tokenize(code: str) -> list[str]:
     return lines
 
 
-def normalize_line(line: str) -> str:
+def normalize_line(line: str, comment_markers: tuple[str, ...] = ("#", "//")) -> str:
     """Normalize a line by removing comments and excess whitespace.
 
     Args:
         line: Raw source code line
+        comment_markers: Comment openers of the file's language ("#", "//", "/*")
 
     Returns:
         Normalized line (empty string if line has no content)
     """
-    line = _strip_comments(line)
+    line = _strip_comments(line, comment_markers)
     return " ".join(line.split())
 
 
@@ -113,24 +115,59 @@ def _handle_multiline_import_continuation(line: str) -> tuple[bool, bool]:
     return not closes_import, True
 
 
-def _strip_comments(line: str) -> str:
-    """Remove comments from line (Python # and // style).
+def _strip_comments(line: str, comment_markers: tuple[str, ...] = ("#", "//")) -> str:
+    """Remove comments from a line without touching string literals.
+
+    A marker only opens a comment outside of '...', "..." and `...` literals, so
+    "x#1", 'http://host' stay intact; callers pass the markers of their language so
+    that Python floor division (//) and TypeScript private names (#x) are kept.
 
     Args:
         line: Source code line
+        comment_markers: Comment openers to honour ("#", "//" to end of line, "/*" inline)
 
     Returns:
         Line with comments removed
     """
-    # Python comments
-    if "#" in line:
-        line = line[: line.index("#")]
+    kept: list[str] = []
+    pos = 0
+    while pos < len(line):
+        literal_end = _string_literal_end(line, pos)
+        if literal_end:
+            kept.append(line[pos:literal_end])
+            pos = literal_end
+            continue
+        if "/*" in comment_markers and line.startswith("/*", pos):
+            close = line.find("*/", pos + 2)
+            if close < 0:
+                break
+            kept.append(" ")
+            pos = close + 2
+            continue
+        if any(line.startswith(m, pos) for m in comment_markers if m != "/*"):
+            break
+        kept.append(line[pos])
+        pos += 1
+    return "".join(kept)
 
-    # JavaScript/TypeScript comments
-    if "//" in line:
-        line = line[: line.index("//")]
 
-    return line
+def _string_literal_end(line: str, pos: int) -> int:
+    """Return the index just past the string literal starting at pos (0 if none starts there).
+
+    Args:
+        line: Source code line
+        pos: Index to inspect
+
+    Returns:
+        End index of the literal (end of line if unterminated), or 0 if pos is not a quote
+    """
+    quote = line[pos]
+    if quote not in _STRING_QUOTES:
+        return 0
+    end = pos + 1
+    while end < len(line) and line[end] != quote:
+        end += 2 if line[end] == "\\" else 1
+    return min(end + 1, len(line))
 
 
 def _is_import_statement(line: str) -> bool:
